@@ -1,4 +1,4 @@
-import GixModel.Lemmas.C44d
+import GixModel.Lemmas.C44e
 /-
 C44 — Tree diffs agree with git.  PROPERTY THEOREMS ONLY.
 
@@ -29,24 +29,26 @@ theorem level_eq_spec (dir : Path) (rel : Rel) (l r : List Entry) (hl : TreeOk l
     level_recs_iff dir hl hr _ (Nat.le_succ _) c]
 
 /-- `gix_diff::tree()` on two canonical trees never fails and reports exactly the declarative
-change set: a change is reported iff the specification prescribes it for its path — for trees of
-any size and depth, with any number of layers `depth ≥ d`. -/
-theorem diff_eq_spec_depth_partial (S : Assoc Bytes (List Entry)) (d : Nat) (a b : List Entry)
+change set, each change once: a change is reported iff the specification prescribes it for its
+path — for trees of any size and depth, with any number of layers `depth ≥ d`. -/
+theorem diff_eq_spec_depth (S : Assoc Bytes (List Entry)) (d : Nat) (a b : List Entry)
     (ha : CanonN S (d + 1) a) (hb : CanonN S (d + 1) b) (depth : Nat) (hd : d ≤ depth) :
-    ∃ out, diff S depth a b = .ok out ∧
-      ∀ c, c ∈ out.map core ↔ ∃ p, c ∈ changeAt p (nodeIn S a p) (nodeIn S b p) :=
-  diff_spec S ha hb depth hd
+    ∃ out, diff S depth a b = .ok out ∧ (out.map core).Nodup ∧
+      ∀ c, c ∈ out.map core ↔ ∃ p, c ∈ changeAt p (nodeIn S a p) (nodeIn S b p) := by
+  obtain ⟨out, h1, h2⟩ := diff_spec S ha hb depth hd
+  exact ⟨out, h1, diff_nodup S ha hb depth hd out h1, h2⟩
 
 /-- …in particular for every pair of canonical trees there is a depth from which on it holds. -/
-theorem diff_eq_spec_partial (S : Assoc Bytes (List Entry)) (a b : List Entry) (ha : Canon S a) (hb : Canon S b) :
-    ∃ d0, ∀ depth, d0 ≤ depth → ∃ out, diff S depth a b = .ok out ∧
+theorem diff_eq_spec (S : Assoc Bytes (List Entry)) (a b : List Entry) (ha : Canon S a) (hb : Canon S b) :
+    ∃ d0, ∀ depth, d0 ≤ depth → ∃ out, diff S depth a b = .ok out ∧ (out.map core).Nodup ∧
       ∀ c, c ∈ out.map core ↔ ∃ p, c ∈ changeAt p (nodeIn S a p) (nodeIn S b p) := by
   obtain ⟨d1, h1⟩ := canon_canonN ha
   obtain ⟨d2, h2⟩ := canon_canonN hb
   refine ⟨max d1 d2, fun depth hd => ?_⟩
   have h1' : CanonN S (max d1 d2 + 1) a := h1.mono (by omega)
   have h2' : CanonN S (max d1 d2 + 1) b := h2.mono (by omega)
-  exact diff_spec S h1' h2' depth hd
+  obtain ⟨out, g1, g2⟩ := diff_spec S h1' h2' depth hd
+  exact ⟨out, g1, diff_nodup S h1' h2' depth hd out g1, g2⟩
 
 -- non-vacuity: `f` becomes executable (same content): one modification — the case the repair is about
 example :
@@ -94,11 +96,5 @@ theorem spec_type_change_rule (p : Spec.C44.Path) (x y : Node) :
     simp [changeAt, this]
   · intro h1 h2 hne
     simp [changeAt, h1, h2, hne]
-
-/-- The full statement (NOT proved): additionally, no change is reported twice. -/
-def C44_full : Prop :=
-  ∀ (S : Assoc Bytes (List Entry)) (a b : List Entry), Canon S a → Canon S b →
-    ∃ d0, ∀ depth, d0 ≤ depth → ∃ out, diff S depth a b = .ok out ∧ (out.map core).Nodup ∧
-      ∀ c, c ∈ out.map core ↔ ∃ p, c ∈ changeAt p (nodeIn S a p) (nodeIn S b p)
 
 end GixModel.Props.C44
